@@ -96,6 +96,8 @@ def plan(prop, tier, seed, ex_tables=None):
         for t in corpus.colossal(big=(tier == 'thorough')):
             if t.tag == 'colossal-pairs4400' and prop not in ('C06', 'C09'):
                 continue
+            if t.tag.endswith('contranominal17') and prop == 'C09':
+                continue      # 24 traversals of up to 131072 members each exceed what one TLC run evaluates (65537 stays)
             if prop != 'C15' or t.tag.endswith('contranominal17'):
                 out.append((t, False))
     if prop == 'C07' and tier == 'thorough':
